@@ -1,5 +1,5 @@
 (* JsMin/Properties.v — property theorems of C33 only; proofs live in Proofs.v. *)
-From JsMin Require Import Model Proofs Relex.
+From JsMin Require Import Model Proofs Relex RelexPairs.
 From Coq Require Import String.
 Open Scope N_scope.
 
@@ -59,27 +59,7 @@ Proof.
 Qed.
 
 (* ---- separators: pairwise re-lexing over a finite alphabet (reflection) *)
-Definition mk (k : N) (l : list string) : list tok := map (fun s => (k, s2l s)) l.
-Definition alphabet : list tok :=
-  mk tkIdent ["a"; "x1"; "_$"; "in"; "of"; "return"; "typeof"; "e"; "n"; "let"]%string ++
-  mk tkNumber ["0"; "1"; "42"; "1.5"; ".5"; "1."; "0xff"; "0xe"; "1e3"; "10n"; "1_000"]%string ++
-  mk tkString ["'s'"; """d"""]%string ++ mk tkTemplate ["`t${a}`"]%string ++ mk tkRegex ["/r/g"; "/[/]/"]%string ++
-  mk tkPunct ["==="; "!=="; ">>>"; "**="; ">>="; "<<="; "&&="; "||="; "??="; "..."; "=="; "!="; ">="; "<="; "&&"; "||"; "++"; "--";
-              "+="; "-="; "*="; "/="; "%="; "**"; ">>"; "<<"; "??"; "=>"; "?.";
-              "+"; "-"; "*"; "/"; "%"; "="; "<"; ">"; "!"; "~"; "&"; "|"; "^"; "?"; ":"; ";"; ","; "."; "("; ")"; "["; "]"; "{"; "}"]%string.
-Definition wsp : tok := (tkWS, [32]).
-(* the lexer produces exactly [t1; blank; t2] from "v1 v2" *)
-Definition pair_producible (t1 t2 : tok) : bool := toks_eqb (tokenize (snd t1 ++ [32] ++ snd t2)) [t1; wsp; t2].
-Definition prefix_ops : list str := map s2l ["+"; "-"; "!"; "~"; "++"; "--"; "("; "["; "{"]%string.
-(* pairs excluded from the claim: (1) two operators of which the second cannot start an operand (no valid
-   script has them adjacent); (2) a number the lexer over-approximates ("1." or a hex literal ending in e)
-   on the left; (3) '.' or '?' before a number ('a . 5' is invalid; 'c ? .5 : x' stays valid JavaScript:
-   '?.' followed by a digit is not optional chaining) *)
-Definition excluded (t1 t2 : tok) : bool :=
-  ((fst t1 =? tkPunct) && (fst t2 =? tkPunct) && negb (mem (snd t2) prefix_ops)) ||
-  ((fst t1 =? tkNumber) && (match last_char (snd t1) with Some c => (c =? 46) || (c =? 101) || (c =? 69) | None => false end)) ||
-  ((fst t1 =? tkPunct) && (fst t2 =? tkNumber) && (str_eqb (snd t1) (s2l ".") || str_eqb (snd t1) (s2l "?"))).
-
+(* alphabet, pair_producible, excluded: defined in RelexPairs.v *)
 Theorem C33_emit_relex_pairs_partial :
   forall t1 t2, In t1 alphabet -> In t2 alphabet -> pair_producible t1 t2 = true -> excluded t1 t2 = false ->
     relex_ok true [t1; wsp; t2] = true.
@@ -106,6 +86,21 @@ Theorem C33_lexer_locality :
   forall t rout rest, tok_shape t (is_regex_ctx rout) = true -> boundary_ok t (hd_opt rest) = true ->
     exists b a, snd t = b :: a /\ lex_one b (a ++ rest) rout = (t, rest, false).
 Proof. exact lex_tok_app. Qed.
+
+(* the pairwise theorem lifted to whole lists: any list (any length, blanks anywhere) of identifier / number / operator
+   tokens of the alphabet in which the first token can start a script and every two adjacent non-blank tokens form a
+   producible, non-excluded pair ([chain_ok]) is emitted as text that lexes back to the same tokens.  Uses the pairwise
+   fact [pairs_good] for adjacent tokens and the locality of the lexer for everything else. *)
+Theorem C33_emit_relex_chain :
+  forall ts, (forall u, In u (strip_ws ts) -> In u A3) -> chain_ok ts = true ->
+    strip_ws (tokenize (emit true ts)) = strip_ws ts.
+Proof. exact relex_chain. Qed.
+
+Example C33_relex_chain_nonvacuous :
+  let ts := tokenize (s2l "let a = x1 +  ++ n ; return a >>= 42 , typeof e ? n : ( 0xff !== 10n ) + 1.5 ") in
+  forallb (fun u => existsb (tok_eqb u) A3) (strip_ws ts) = true /\ chain_ok ts = true /\ List.length (strip_ws ts) = 25%nat /\
+  emit true ts = s2l "let a=x1+ ++n;return a>>=42,typeof e?n:(0xff!==10n)+1.5".
+Proof. vm_compute. repeat split; reflexivity. Qed.
 
 Example C33_relex_lists_nonvacuous :
   let ts := tokenize (s2l "function f(a1,b){let x = a1 + +b - 1.5e3/2 ; return x>>>=2, x!==b ? x-- : b++ +a1 .5}") in
